@@ -6,6 +6,7 @@ import (
 	"strings"
 	"sync"
 
+	"github.com/goatcms/goatcore/app"
 	"github.com/goatcms/goatcore/app/gio"
 	"github.com/goatcms/goatcore/app/gio/bufferio"
 	"github.com/goatcms/goatcore/app/modules/commonm/commservices"
@@ -94,4 +95,60 @@ func zzRunnerLocks(prop string) {
 	// whatever happened, every resource is free again afterwards
 	sm.Lock(commservices.LockMap{"q": commservices.LockRW, "r": commservices.LockRW}).Unlock()
 	nd.Reach(prop+"/runner-end")
+}
+
+// zzNsProbe is a sandbox stub that records the namespaces its task's own
+// scope carries (what the commands nested in the task's body will see).
+type zzNsProbe struct {
+	unit       pipservices.NamespacesUnit
+	task, lock string
+	ran        bool
+}
+
+func (s *zzNsProbe) Run(ctx app.IOContext) error {
+	ns, err := s.unit.FromScope(ctx.Scope(), namespaces.NewNamespaces(pipservices.NamasepacesParams{Task: "?", Lock: "?"}))
+	if err == nil {
+		s.task, s.lock = ns.Task(), ns.Lock()
+	}
+	s.ran = true
+	return nil
+}
+
+// ZZVerifC15TaskNamespaces: a task's own scope keeps the LOCK namespace of
+// the scope it was submitted with (and extends the task namespace by its
+// name): a command nested in the task's body that names resource x locks the
+// same key as a task of the surrounding scope that names x - so they exclude
+// each other.
+func ZZVerifC15TaskNamespaces() {
+	lock := []string{"", "L"}[nd.Choose("lock-namespace", 2)]
+	ptask := []string{"", "p"}[nd.Choose("task-namespace", 2)]
+	nsUnit := namespaces.NewUnit()
+	probe := &zzNsProbe{unit: nsUnit}
+	boxes := &zzSandboxes{boxes: map[string]pipservices.Sandbox{"sb": probe}}
+	unit := tasks.NewUnit(tasks.UnitDeps{NamespacesUnit: nsUnit})
+	r := NewRunner(Deps{SandboxesManager: boxes, TasksUnit: unit, SharedMutex: mutex.NewSharedMutex()})
+	scp := scope.New(scope.Params{Name: "root"})
+	cwd, _ := memfs.NewFilespace()
+	buf := bufferio.NewBuffer()
+	nd.Assert(r.Run(pipservices.Pip{
+		Name: "t",
+		Context: pipservices.PipContext{
+			In: gio.NewInput(strings.NewReader("")), Out: bufferio.NewBufferOutput(buf), Err: bufferio.NewBufferOutput(buf),
+			Scope: scp, CWD: filesystem.Filespace(cwd),
+		},
+		Namespaces: namespaces.NewNamespaces(pipservices.NamasepacesParams{Task: ptask, Lock: lock}),
+		Sandbox:    "sb",
+		Lock:       commservices.LockMap{},
+	}) == nil, "C15/task-namespaces/accepted")
+	mgr, err := unit.FromScope(scp)
+	nd.Assert(err == nil, "C15/task-namespaces/manager")
+	nd.Assert(mgr.Wait() == nil, "C15/task-namespaces/wait")
+	nd.Assert(probe.ran, "C15/task-namespaces/body-ran")
+	nd.Assert(probe.lock == lock, "C15/task-namespaces/lock-namespace-inherited")
+	want := "t"
+	if ptask != "" {
+		want = ptask + ":t"
+	}
+	nd.Assert(probe.task == want, "C15/task-namespaces/task-namespace-extended")
+	nd.Reach("C15/task-namespaces/end")
 }
